@@ -6,6 +6,7 @@ import (
 	"fmt"
 	"go/constant"
 	"go/token"
+	"regexp"
 	"strings"
 
 	"golang.org/x/tools/go/ssa"
@@ -185,6 +186,8 @@ func ruleWSig(c *Ctx) {
 
 // digestRule: CalcInputSignatureHash returns Sha256d(buf) where buf is the result of the
 // function value chosen by sigStrat; sigStrat returns CalcInputPreimage iff flag has ForkID.
+var dynCallRe = regexp.MustCompile(`call#\d+\(`)
+
 func digestRule(c *Ctx, sh *ssa.Function) {
 	var strat, dyn *ssa.Call
 	var sha *ssa.Call
@@ -214,6 +217,40 @@ func digestRule(c *Ctx, sh *ssa.Function) {
 	}
 	c.Check(okShape, "S-dig", "CalcInputSignatureHash/sha256d(preimage)", sh.Pos(), "the digest is Sha256d of the preimage produced by the strategy selected by sigStrat",
 		"CalcInputSignatureHash no longer returns Sha256d of the preimage selected by sigStrat")
+	// every return: the preimage function's error; the preimage itself iff it equals the SINGLE-bug
+	// constant (which only the legacy builder returns); otherwise Sha256d(preimage). No other shortcut.
+	if paths, err := feasiblePaths(sh, 500); err == nil {
+		got := map[string]bool{}
+		for _, d := range paths {
+			if d.Ret == nil {
+				continue
+			}
+			var cs []string
+			for _, pc := range d.Conds {
+				s := atomName(pc.Cond)
+				if !pc.Truth {
+					s = "!" + s
+				}
+				cs = append(cs, s)
+			}
+			k := strings.Join(cs, " && ") + " => " + atomName(d.Env.Term(d.Ret.Results[0])) + ", " + strings.TrimPrefix(returnDesc(d), "return ")
+			got[dynCallRe.ReplaceAllString(k, "PRE(")] = true
+		}
+		pre := "PRE(p1, p2)"
+		want := setOf(
+			"("+pre+"#1 != nil) => nil, err",
+			"!("+pre+"#1 != nil) && bytes.Equal(*g:bt.defaultHex, "+pre+"#0) => "+pre+"#0, nil",
+			"!("+pre+"#1 != nil) && !bytes.Equal(*g:bt.defaultHex, "+pre+"#0) => github.com/libsv/go-bk/crypto.Sha256d("+pre+"#0), nil",
+		)
+		same := len(got) == len(want)
+		for k := range got {
+			if !want[k] {
+				same = false
+			}
+		}
+		c.Check(same, "S-dig", "CalcInputSignatureHash/returns", sh.Pos(), "returns the builder's error, the SINGLE-bug constant when the builder produced it, else Sha256d(preimage); no other path",
+			"CalcInputSignatureHash has a return outside {builder error, builder's SINGLE-bug constant, Sha256d(preimage)}: "+strings.Join(keysSorted(got), " | "))
+	}
 	if st := c.P.Func("", "*Tx", "sigStrat"); st != nil {
 		// decision: Has(ForkID) -> CalcInputPreimage else Legacy
 		okSel := false
